@@ -19,6 +19,11 @@ def firstOutside (lo hi slack : Rat) (rows : List (List Rat)) : Option (Nat × N
   let flat := (rows.zipIdx).flatMap (fun (row, s) => (row.zipIdx).map (fun (x, a) => (s, a, x)))
   flat.find? (fun (_, _, x) => !(decide (lo - slack ≤ x) && decide (x ≤ hi + slack)))
 
+/-- policy rows (as lists) are non-negative and sum to at most one: the hypothesis of the sub-stochastic bounds theorems,
+    checked by the driver on the policy it computed -/
+def subDistRows (rows : List (List Rat)) : Bool :=
+  rows.all (fun r => r.all (fun x => decide (0 ≤ x)) && decide (r.foldl (· + ·) 0 ≤ 1))
+
 /-- trace list checker: every eligibility in `[tol, 1]`, no pair stored twice -/
 def tracesInRange (tol : Rat) (tr : List Tr) : Bool := tr.all (fun t => decide (tol ≤ t.el) && decide (t.el ≤ 1))
 
